@@ -6,6 +6,8 @@ PROP = "C09"
 
 
 def fold(rep, res, prefix):
+    if res.get("sample"):
+        rep.actual_sample(res["sample"], limit=2)
     rep.evaluations += res["inputs"]
     rep.process_runs += res["runs"]
     rep.distinct.update(res["shas"])
